@@ -302,6 +302,8 @@ def run(prog, tier):
                          f"variable_index replaced; body is {body}", REL, cfn.lineno))
 
     obs.extend(dtype_hazard_obligations(prog, "float-arithmetic", ['inference/approx/conditional.py']))
+    from .common import call_order_obligations
+    obs.extend(call_order_obligations(prog, "arguments-in-order", ['inference/approx/conditional.py']))
 
     meta = {
         "explanation": "Normal-form proofs: substituting trapezium_full into dh*T^2+(1-dh)*T-x gives 0 (uses sqrt(P)^2 = P); the "
